@@ -332,6 +332,13 @@ class ClauseEnv:
     def obj(self, ref):
         return ObjView(self._it, ref, self._heap)
 
+    def opt(self, name):
+        """uniform view (.is_none / .val) of an Opt(...) parameter"""
+        x = self.__getattr__(name)
+        if isinstance(x, UnionView) or _is_opt_dt(x):
+            return x
+        return _OptArg(x)
+
     def decide(self, cond):
         """True / False if the path condition settles cond, else None"""
         ctx = self._it.ctx
@@ -490,7 +497,7 @@ class VEngine(Engine):
                 if name not in wit:
                     wit[name] = ctx.fresh_const('wit!' + name, z3.IntSort())
                 return wit[name]
-            env = _CallEnv(it, bound, {'result': res, '__witness__': witness}, old_heap)
+            env = _CallEnv(it, bound, {'result': res, '__witness__': witness}, old_heap, con)
             for name, fn, _ in con.ensures_:
                 if name in con.internal_:
                     continue
@@ -500,7 +507,7 @@ class VEngine(Engine):
         if self.exc_isinstance(out, 'OSError'):
             exc.attrs['errno'] = VUnion([(ctx.fresh_const('errno_none', z3.BoolSort()), NONE)]) if False else \
                 VInt(ctx.fresh_const('errno', z3.IntSort()))
-        env = _CallEnv(it, bound, {'exc': exc}, old_heap)
+        env = _CallEnv(it, bound, {'exc': exc}, old_heap, con)
         for name, ecls, fn, _ in con.exc_ensures_:
             if name in con.internal_:
                 continue
@@ -509,12 +516,40 @@ class VEngine(Engine):
         raise PyRaise(exc)
 
 
+def _is_opt_dt(x):
+    return isinstance(x, z3.ExprRef) and isinstance(x.sort(), z3.DatatypeSortRef) and x.sort().name().startswith('Opt')
+
+
+class _OptArg:
+    """uniform view of an argument passed for a parameter declared Opt(...): callers may pass None, a definite value
+    or a union; exported clauses use .is_none / .val whatever it was"""
+
+    def __init__(self, x):
+        self._x = x
+        self.is_none = z3.BoolVal(x is None)
+
+    @property
+    def val(self):
+        return self._x
+
+    def __getattr__(self, name):
+        return getattr(self._x, name)
+
+
 class _CallEnv(ClauseEnv):
     """clause environment at a call site: params = bound args, old = pre-call heap"""
 
-    def __init__(self, it, bound, extra, old_heap):
+    def __init__(self, it, bound, extra, old_heap, con=None):
         ClauseEnv.__init__(self, it, None, extra, heap=it.ctx.heap, entry=bound, locals_={})
         self._old_heap = old_heap
+        self._con = con
+
+    def opt(self, name):
+        """uniform view (.is_none / .val) of the argument passed for an Opt(...) parameter"""
+        x = ClauseEnv.__getattr__(self, name)
+        if isinstance(x, UnionView) or _is_opt_dt(x):
+            return x
+        return _OptArg(x)
 
     @property
     def old(self):
